@@ -306,6 +306,8 @@ fn open_index(config: &crate::config::Config) -> Result<(bool, Index)> {
     // recorded as current.
     if config.meta_path.is_file() {
         fs::remove_file(&config.meta_path)?;
+        #[cfg(anything_verif)]
+        crate::verif::crash_point(0);
     }
 
     if config.index_path.is_dir() {
